@@ -592,3 +592,38 @@ Lemma range_two_keys_witness :
   sql_accepts (to_sframe (KRange, Some (-1), Some 0)) 0 = false /\
   prql_segmentx (KRange, Some (-1), Some 0) [(true, w_key)] w_part 1 = [1; 2]%nat.
 Proof. repeat split; vm_compute; reflexivity. Qed.
+
+(* ---------------------------------------------------------------- translate_windowed's rejection (91a6a23) *)
+Lemma emit_frame_some supports sorted f sf : emit_frame supports sorted f = Some sf -> supports = true /\ sf = to_sframe f.
+Proof.
+  unfold emit_frame. destruct supports; cbn [andb]; [|discriminate].
+  destruct (negb (frame3_eqb f (default_frame sorted))); [|discriminate]. intro H. injection H as <-. auto.
+Qed.
+
+(* every frame clause that reaches SQL is one the engines accept *)
+Lemma emit_window_accepted supports n k a b sf :
+  (forall x y, a = Some x -> b = Some y -> x <= y) ->
+  emit_window supports n (k, a, b) = Some (Some sf) -> sql_accepts sf n = true.
+Proof.
+  intros Hab. unfold emit_window. destruct (range_offset_rejected supports n (k, a, b)) eqn:R; [discriminate|].
+  intro H. injection H as H. apply emit_frame_some in H as [-> ->].
+  destruct k; [apply emitted_rows_accepted; exact Hab|].
+  rewrite (emitted_range_accepted a b n Hab).
+  unfold range_offset_rejected in R. cbn [andb wkind_eqb] in R. unfold offset_free.
+  destruct (Nat.eqb n 1); [apply orb_true_r|]. cbn [negb andb] in R. rewrite orb_false_r.
+  apply orb_false_iff in R as [-> ->]. reflexivity.
+Qed.
+
+(* ... and it rejects exactly the RANGE frames no engine accepts *)
+Lemma emit_window_rejects_iff n a b :
+  (forall x y, a = Some x -> b = Some y -> x <= y) ->
+  (emit_window true n (KRange, a, b) = None <-> sql_accepts (to_sframe (KRange, a, b)) n = false).
+Proof.
+  intros Hab. rewrite (emitted_range_accepted a b n Hab). unfold emit_window, range_offset_rejected, offset_free.
+  cbn [andb wkind_eqb]. destruct (Nat.eqb n 1); cbn [negb andb]; rewrite ?orb_true_r, ?orb_false_r.
+  - split; discriminate.
+  - destruct (is_offset a), (is_offset b); cbn; split; intro H; try reflexivity; discriminate.
+Qed.
+
+Lemma emit_window_rows_never_rejected supports n a b : emit_window supports n (KRows, a, b) = Some (emit_frame supports (negb (Nat.eqb n 0)) (KRows, a, b)).
+Proof. unfold emit_window, range_offset_rejected. cbn [wkind_eqb]. rewrite andb_false_r. reflexivity. Qed.
